@@ -10,6 +10,7 @@ import (
 	"encoding/json"
 	"fmt"
 	"os"
+	"reflect"
 	"sync"
 )
 
@@ -124,6 +125,25 @@ func vHugeBytes(n int) []byte { return make([]byte, n) }
 // vKernelDropHandles: process death for the OS file systems. Natively the
 // replay harness closes what it opened itself; nothing to do here.
 func vKernelDropHandles() {}
+
+func vLookup32(table []uint32, idx uint8) uint32 { return table[idx] }
+
+// vGobFields lists the exported fields (name and type) of the struct behind v:
+// what encoding/gob matches by when it decodes a metadata file.
+func vGobFields(v interface{}) string {
+	t := reflect.TypeOf(v)
+	if t.Kind() == reflect.Ptr {
+		t = t.Elem()
+	}
+	out := ""
+	for i := 0; i < t.NumField(); i++ {
+		f := t.Field(i)
+		if f.PkgPath == "" {
+			out += f.Name + " " + f.Type.String() + ";"
+		}
+	}
+	return out
+}
 
 func vAssume(b bool) {
 	if !b {
